@@ -21,7 +21,9 @@ import (
 	"k8s.io/apimachinery/pkg/api/resource"
 	metav1 "k8s.io/apimachinery/pkg/apis/meta/v1"
 	"k8s.io/apimachinery/pkg/types"
+	k8sfeature "k8s.io/apiserver/pkg/util/feature"
 	"k8s.io/client-go/tools/cache"
+	apiresource "k8s.io/component-helpers/resource"
 	"k8s.io/klog/v2"
 	fwktype "k8s.io/kube-scheduler/framework"
 	"k8s.io/kubernetes/pkg/scheduler/framework"
@@ -32,8 +34,10 @@ import (
 	schedulingv1alpha1 "github.com/koordinator-sh/koordinator/apis/scheduling/v1alpha1"
 	koordfake "github.com/koordinator-sh/koordinator/pkg/client/clientset/versioned/fake"
 	koordinatorinformers "github.com/koordinator-sh/koordinator/pkg/client/informers/externalversions"
+	koordfeatures "github.com/koordinator-sh/koordinator/pkg/features"
 	schedulerconfig "github.com/koordinator-sh/koordinator/pkg/scheduler/apis/config"
 	"github.com/koordinator-sh/koordinator/pkg/scheduler/frameworkext"
+	utilfeature "github.com/koordinator-sh/koordinator/pkg/util/feature"
 	reservationutil "github.com/koordinator-sh/koordinator/pkg/util/reservation"
 	"github.com/koordinator-sh/koordinator/pkg/verifkit/vk"
 )
@@ -661,6 +665,8 @@ func c19Persisted(m map[types.UID]c19Obj) string {
 
 func TestVerifC19DeviceReplay(t *testing.T) {
 	c19Silence()
+	// ResizePod (off by default) makes PreBindReservation persist the device amounts a Reservation took
+	defer utilfeature.SetFeatureGateDuringTest(t, k8sfeature.DefaultMutableFeatureGate, koordfeatures.ResizePod, true)()
 	rec := vk.New(t, "C19", "deviceReplay")
 	ctx := context.Background()
 	rapid.Check(t, func(t *rapid.T) {
@@ -683,7 +689,7 @@ func TestVerifC19DeviceReplay(t *testing.T) {
 		dead := false
 		sawVF, sawMultiType, sawMultiDev, sawShareDev, sawDup, sawTerminated, sawPodFinished, sawSelfEvent, sawLate, sawResv, sawID := false, false, false, false, false, false, false, false, false, false, false
 		maxLive, checks := 0, 0
-		sawDeleted, sawEarly, sawOutage, sawOutageOfHeld, sawRestartInOutageOfHeld := false, false, false, false, false
+		sawDeleted, sawEarly, sawOutage, sawOutageOfHeld, sawRestartInOutageOfHeld, sawResizeMulti := false, false, false, false, false, false
 
 		bound := func() []types.UID {
 			var out []types.UID
@@ -863,9 +869,12 @@ func TestVerifC19DeviceReplay(t *testing.T) {
 				before = c19Obj{Resv: resv}
 				r := resv.DeepCopy()
 				st = plg.PreBindReservation(ctx, cs, r, c19Node)
-				r.Status.NodeName = c19Node
-				r.Status.Phase = schedulingv1alpha1.ReservationAvailable
-				r.Status.Allocatable = tplPod.Spec.Containers[0].Resources.Requests.DeepCopy()
+				// what the reservation plugin's Bind records: Available on the node, and Status.Allocatable = the requests
+				// overridden by the device amounts pre-bind persisted (resize-allocatable annotation, ResizePod feature)
+				if err := reservationutil.SetReservationAvailable(r, c19Node); err != nil {
+					t.Fatalf("harness: SetReservationAvailable: %v", err)
+				}
+				r.Status.Conditions = nil // wall-clock stamps, irrelevant here
 				obj = c19Obj{Resv: r}
 			} else {
 				before = c19Obj{Pod: pod}
@@ -889,6 +898,45 @@ func TestVerifC19DeviceReplay(t *testing.T) {
 			}
 			alloc := c19CopyAlloc(state.allocationResult) // the model must not alias what the plugin holds
 			model[pod.UID] = alloc
+			if asResv && len(alloc) > 0 {
+				// With ResizePod the device amounts a Reservation took are persisted (pre-bind annotation -> Status.Allocatable)
+				// and a restarted scheduler rebuilds the reserve pod from them: what is read back must be the sum over the
+				// devices handed out at Reserve.
+				want := map[corev1.ResourceName]*resource.Quantity{}
+				nDev := 0
+				for _, l := range alloc {
+					for _, a := range l {
+						nDev++
+						for n, q := range a.Resources {
+							if want[n] == nil {
+								want[n] = &resource.Quantity{}
+							}
+							want[n].Add(q)
+						}
+					}
+				}
+				if nDev >= 2 {
+					sawResizeMulti = true
+				}
+				rebuilt := apiresource.PodRequests(reservationutil.NewReservePod(obj.Resv), apiresource.PodResourcesOptions{})
+				var names []string
+				for n := range want {
+					names = append(names, string(n))
+				}
+				sort.Strings(names)
+				for _, n := range names {
+					got := obj.Resv.Status.Allocatable[corev1.ResourceName(n)]
+					req := rebuilt[corev1.ResourceName(n)]
+					if got.Cmp(*want[corev1.ResourceName(n)]) != 0 || req.Cmp(*want[corev1.ResourceName(n)]) != 0 {
+						if c.Violation(t, "device-replay:reservation-allocatable-differs-from-allocation",
+							"reservation %s took %s (%d devices), sum of %s = %s; persisted Status.Allocatable says %s, the rebuilt reserve pod requests %s\ninventory: %s\nhistory: %s",
+							obj.Resv.Name, c19AllocStr(alloc), nDev, n, want[corev1.ResourceName(n)].String(), got.String(), req.String(), c19DeviceStr(device), strings.Join(hist, "\n  ")) {
+							dead = true
+						}
+						return
+					}
+				}
+			}
 			if len(alloc) >= 2 {
 				sawMultiType = true
 			}
@@ -1083,6 +1131,7 @@ func TestVerifC19DeviceReplay(t *testing.T) {
 		c.ClassIf(sawPodFinished, "pod-finished(delivered-as-delete)")
 		c.ClassIf(sawDeleted, "object-deleted")
 		c.ClassIf(sawEarly, "replay:add-unbound-then-bind-update")
+		c.ClassIf(sawResizeMulti, "ResizePod:reservation-holding>=2-devices")
 		c.ClassIf(sawOutage, "device-dropped-from-Device-object")
 		c.ClassIf(sawOutageOfHeld, "dropped-device-is-held")
 		c.ClassIf(sawRestartInOutageOfHeld, "restart-during-outage-of-held-device-then-reported-again")
